@@ -207,8 +207,9 @@ CHECKS = {
                 text="For solid and multi-folder archives with directories and empty files (enumerated shapes) and every subset T of "
                      "the member names (list or set, with/without trailing slash and an absent name, recursive on/off) the factory "
                      "receives exactly the selected existing members, each with exactly its byte range of its folder's decoded "
-                     "stream, and nothing is written to the archive.",
-                note=RD_NOTE + "; extraction to a directory and the parallel branch are outside"),
+                     "stream, and nothing is written to the archive; extract(<directory>, T) on the filesystem model creates exactly "
+                     "the selected members (with their byte ranges) and the parent directories they need, nothing else.",
+                note=RD_NOTE + "; the parallel branch is outside here (C06.P); the filesystem is the model of vf/harness/fakefs.py"),
     "C10": dict(engine=B, ref="DESIGN.md §3 (C10)",
                 technique="bounded symbolic execution of the real listing interfaces (getnames/namelist/list/getinfo/archiveinfo/"
                           "needs_password, get_methods_names, SupportedMethods) from the AST on reference-written headers",
